@@ -56,7 +56,8 @@ def sym_menu(b, tier="quick"):
          ["set", "switch", 0, "closed", False],
          ["set", "line", 1 if b == "R3" else 0, "parallel", 2],
          ["sn", 100.],
-         ["ext_grid", 2, 1.0, 0., True]]
+         ["ext_grid", 2, 1.0, 0., True],
+         ["sym_load", 0, 0.7, 0.2, "delta", 1., True]]
     if b == "R3":
         m += [["line", 0, 2, 1, True], ["swapline", 1], ["set", "switch", 1, "closed", False]]
     if b == "T3":
@@ -86,7 +87,12 @@ def asym_menu(tier="quick"):
           ["asym_sgen", 3, [0., 0.3, 0.1], [0., 0., 0.1], "wye", 0.5, True],
           ["asym_load", 2, [0.3, 0.1, 0.], [0.1, 0., 0.3], "delta", 1., True],
           ["asym_load", 2, [0.1, 0.1, 0.1], [0.3, 0.3, 0.3], "delta", 1., True],
-          ["asym_sgen", 2, [0.1, 0., 0.3], [0., 0., 0.], "delta", 1., True]]
+          ["asym_sgen", 2, [0.1, 0., 0.3], [0., 0., 0.], "delta", 1., True],
+          ["asym_load", 2, [0., 0.3, 0.1], [0.1, 0.1, 0.], "delta", 0.5, True],
+          # elements directly at the bus of the base ext_grid (wye / delta)
+          ["asym_load", 0, [0.3, 0.1, 0.], [0.1, 0., 0.3], "delta", 1., True],
+          ["asym_load", 0, [0.1, 0., 0.3], [0., 0.1, 0.], "wye", 0.5, True],
+          ["asym_sgen", 0, [0., 0.3, 0.1], [0., 0., 0.1], "delta", 1., True]]
     return m
 
 
@@ -110,11 +116,26 @@ ASYM = {"asymmetric_load": +1, "asymmetric_sgen": -1}
 BR = {"line": (("from_bus", "from"), ("to_bus", "to")), "trafo": (("hv_bus", "hv"), ("lv_bus", "lv"))}
 
 
+def _delta_to_phase(net, b, s_ll):
+    """phase-to-earth powers [a,b,c] (MVA) of a delta-connected element with line-to-line branch powers s_ll = [S_ab, S_bc, S_ca],
+    evaluated at the REPORTED phase voltages of bus b (certificate: S_ab = V_ab conj(I_ab), I_a = I_ab - I_ca ...)."""
+    r = net.res_bus_3ph
+    k = float(net.bus.at[b, "vn_kv"]) / np.sqrt(3.)
+    v = [k * float(r.at[b, "vm_%s_pu" % ph]) * np.exp(1j * np.deg2rad(float(r.at[b, "va_%s_degree" % ph]))) for ph in PH]
+    if not all(np.isfinite(x) for x in v):
+        return None
+    vll = [v[0] - v[1], v[1] - v[2], v[2] - v[0]]
+    ill = [np.conj(s_ll[i] / vll[i]) if s_ll[i] != 0 else 0j for i in range(3)]
+    ip = [ill[0] - ill[2], ill[1] - ill[0], ill[2] - ill[1]]
+    return [v[i] * np.conj(ip[i]) for i in range(3)]
+
+
 def phase_sums(net):
     """per fused node and phase: complex consumption of bus elements (from res_*_3ph) and complex branch outflow.
     Returns acc[node] = dict(elem=[3 complex], branch=[3 complex], buses=set, delta=bool), perbus[bus] = [3 complex].
-    delta: an in-service delta-connected element sits at the node - its table reports line-to-line branch powers (a symmetric
-    delta load is booked with total/3 per phase), which equal the phase-to-earth powers only for balanced voltages."""
+    delta: an in-service delta-connected element sits at the node.  Its table reports line-to-line branch powers (a symmetric
+    delta load: total/3 per branch); for the nodal balance (elem) they are converted to phase-to-earth powers at the reported
+    bus voltages, perbus keeps the table values (res_bus_3ph is the plain sum of the tables)."""
     node = fused_nodes(net)
     acc = {}
     perbus = {int(b): [0j, 0j, 0j] for b in net.bus.index}
@@ -139,10 +160,12 @@ def phase_sums(net):
             s = sign * complex(p, q) / 3.
             sl = slot(b)
             sl["kinds"].add(tab)
+            sph = [s, s, s]
             if net[tab].at[i, "type"] == "delta" and bool(net[tab].at[i, "in_service"]):
                 sl["delta"] = True
+                sph = _delta_to_phase(net, b, [s, s, s]) or sph
             for k in range(3):
-                sl["elem"][k] += s
+                sl["elem"][k] += sph[k]
                 perbus[b][k] += s
     for tab, sign in ASYM.items():
         r = net.get("res_%s_3ph" % tab)
@@ -152,13 +175,17 @@ def phase_sums(net):
             b = int(net[tab].at[i, "bus"])
             sl = slot(b)
             sl["kinds"].add(tab)
-            if net[tab].at[i, "type"] == "delta" and bool(net[tab].at[i, "in_service"]):
-                sl["delta"] = True
+            tabv = []
             for k, ph in enumerate(PH):
                 p, q = float(r.at[i, "p_%s_mw" % ph]), float(r.at[i, "q_%s_mvar" % ph])
-                if np.isfinite(p) and np.isfinite(q):
-                    sl["elem"][k] += sign * complex(p, q)
-                    perbus[b][k] += sign * complex(p, q)
+                tabv.append(sign * complex(p, q) if np.isfinite(p) and np.isfinite(q) else 0j)
+            sph = tabv
+            if net[tab].at[i, "type"] == "delta" and bool(net[tab].at[i, "in_service"]):
+                sl["delta"] = True
+                sph = _delta_to_phase(net, b, tabv) or tabv
+            for k in range(3):
+                sl["elem"][k] += sph[k]
+                perbus[b][k] += tabv[k]
     r = net.get("res_ext_grid_3ph")
     if r is not None and len(r):
         for i in net.ext_grid.index:
